@@ -20,7 +20,7 @@ type vProvider struct {
 }
 
 func (p *vProvider) Start(autoReconnect bool, cb api.MdnsResolveCB) bool { return true }
-func (p *vProvider) Shutdown()                                            {}
+func (p *vProvider) Shutdown()                                           {}
 func (p *vProvider) Announce(serviceName string, port int, txt []string) error {
 	p.name, p.port, p.txt = serviceName, port, txt
 	p.announces++
@@ -52,7 +52,7 @@ const (
 
 type vCfg struct {
 	ski, id, brand, model, typ, serial string
-	cats                                []api.DeviceCategoryType
+	cats                               []api.DeviceCategoryType
 }
 
 func baseCfg() vCfg {
